@@ -230,7 +230,13 @@ def gen_plan(seed, cfg):
             f['errno'] = 'EIO'
         else:
             f['errno'] = 'EIO'
-            f['after'] = r.choice([0, 10, 500, 2000, 5000])
+            if r.random() < 0.5:
+                f['after'] = r.choice([0, 10, 500, 2000, 5000])
+            else:
+                # by position in TIME instead of position in the file: the n-th raw read of the workbook during this
+                # operation (the zip directory is read first, then one member after the other), so that a transient
+                # error can land between two sheets as well as at the very beginning
+                f['nth'] = r.choice([1, 2, 3, 4, 5, 6, 8, 10, 12, 15, 20, 30])
         faults.append(f)
     plan = {'engine': NAME, 'seed': seed, 'swarm': swarm, 'workbooks': workbooks, 'clients': clients, 'faults': faults, 'env': core.gen_env(seed),
             'schedule': {'mode': swarm['mode'], 'seed': core.derive(seed, 'schedule'), 'explicit': None, 'opcode': swarm['opcode'],
@@ -279,9 +285,15 @@ class _Policy(simfs.Policy):
         st = self.state()
         if st:
             for f in st['armed']:
-                if f['kind'] == 'read_err' and not f.get('_fired') and path.endswith('.xlsx') and pos + want > f['after']:
-                    self._fire(st, f)
-                    raise OSError(getattr(errno, f['errno']), 'Input/output error (injected)', path)
+                if f['kind'] == 'read_err' and not f.get('_fired') and path.endswith('.xlsx'):
+                    if 'nth' in f:
+                        f['_seen'] = f.get('_seen', 0) + 1
+                        hit = f['_seen'] >= f['nth']
+                    else:
+                        hit = pos + want > f['after']
+                    if hit:
+                        self._fire(st, f)
+                        raise OSError(getattr(errno, f['errno']), 'Input/output error (injected)', path)
         return self.read_cap_n or want
 
     def write_cap(self, path, written, want):
